@@ -122,6 +122,7 @@ func c16Start(mode string, mgr, enabled, force bool, paddr, laddr string) (*c16N
 		// the same call cmd/kevo/server.go makes; for a replica this is what sets the engine
 		// read-only (Manager.startReplica -> setEngineReadOnly)
 		if err := m.Start(); err != nil {
+			e.Close()
 			return nil, err
 		}
 		n.mgr = m
@@ -700,6 +701,14 @@ func runC16(c *Case, out func(string)) {
 	paddr := string(tok(hdrVal(c.Hdr, "paddr", "-")))
 	laddr := string(tok(hdrVal(c.Hdr, "laddr", "-")))
 	n, err := c16Start(mode, mgr, enabled, force, paddr, laddr)
+	if err != nil && strings.Contains(err.Error(), "invalid replication mode") {
+		// a mode string the manager does not know (another spelling, a typo): the node is not
+		// started at all, so there is nothing that could run as a replica under another name
+		out("X refused")
+		out("ORACLE ok")
+		out("META kind=prog refused_mode=1 nontrivial=0")
+		return
+	}
 	if err != nil {
 		out("IMPL-ERROR start " + err.Error())
 		return
